@@ -224,6 +224,7 @@ theorem buildStoreAux_mono (ns : List Node) (i : NodeId) (s : Store) (m t : Node
     | integer _ _ => exact ih _ _ h
     | command _ _ => exact ih _ _ h
     | boolean _ _ _ => exact ih _ _ h
+    | ctls _ => exact ih _ _ h
     | enumeration _ _ => exact ih _ _ h
 
 theorem buildStoreAux_table (ns : List Node) (i : Nat) (s : Store) (j : Nat) (r : Reg)
